@@ -329,5 +329,23 @@ def parts(tier):
     ]
 
 
+def _has_empty_attribute_value(spec):
+    from saml2_tophat.saml import AttributeValueBase
+    cls = G.classes().get(spec['cls'])
+    if cls is not None and issubclass(cls, AttributeValueBase) and spec.get('text') == '':
+        return True
+    return any(_has_empty_attribute_value(c) for lst in spec.get('children', {}).values() for c in lst)
+
+
 def known_match(part, case, v):
+    if v.bucket in ('structure-differs', 'second-serialisation-differs'):
+        if part == 'generated':
+            spec = case['spec']
+        elif case.get('variant') == -2:
+            cls = G.classes()[case['cls']]
+            spec = {'cls': case['cls'], 'text': '' if getattr(cls, 'c_value_type', None) or not G.children_of(cls) else None, 'children': {}}
+        else:
+            return None
+        if _has_empty_attribute_value(spec):
+            return 'C12-empty-string-attributevalue-becomes-nil'
     return None
